@@ -404,6 +404,22 @@ func modeRace(c *Ctx) {
 		// every phase starts with the documented default: no NotFoundHandler
 		c.SetField(api, "NotFoundHandler", nil)
 		start := make(chan struct{})
+		if fn, ok := c.Reg.Funcs["SpecFileHandler"]; ok && specWant != "" {
+			// meanwhile another API value is being assembled the documented way (a
+			// second listener, a parallel test): the package's constructors are
+			// called while this one serves
+			wg.Add(1)
+			go func() {
+				defer wg.Done()
+				<-start
+				for i := 0; i < 40; i++ {
+					_ = reflect.ValueOf(fn).Call(nil)
+					c.Stat("spec_handlers_constructed_meanwhile", 1)
+					runtime.Gosched()
+					time.Sleep(50 * time.Microsecond)
+				}
+			}()
+		}
 		for gi := 0; gi < G; gi++ {
 			wg.Add(1)
 			go func(gi int) {
